@@ -81,4 +81,4 @@ replace github.com/aws/aws-sdk-go => github.com/aws/aws-sdk-go v1.46.7
 
 require github.com/yandex/pandora v0.0.0
 
-replace github.com/yandex/pandora => /var/tmp/wt-C05-x
+replace github.com/yandex/pandora => /repo
